@@ -169,9 +169,7 @@ class FixedGaussianNoise(Module):
 
         if noise is not None:
             if not noise.is_floating_point():
-                # (integer noise: the bound below is defined for floating dtypes; the default one, as in torch's
-                # own arithmetic, so that the sum with the covariance has the covariance's dtype)
-                noise = noise.to(torch.get_default_dtype())
+                noise = noise.to(self.noise.dtype)  # (integer noise: the bound below is defined for floating dtypes)
             if noise.dtype in (torch.float, torch.double, torch.half):  # the dtypes min_fixed_noise is defined for
                 noise = self._lower_bounded(noise)
             return DiagLinearOperator(noise)
